@@ -55,6 +55,26 @@ Qed.
 Lemma keys_after_apply : forall b R, map key_of (map (gf b) R) = map key_of R.
 Proof. intros b R. rewrite map_map. apply map_ext. intro r. apply key_of_gf. Qed.
 
+Lemma is_structure_gf : forall b r, is_structure (gf b r) = is_structure r.
+Proof.
+  intros b r. destruct (gf_cases b r) as [[_ [_ E]] | [_ E]]; rewrite E; reflexivity.
+Qed.
+
+Lemma content_keys_after_apply : forall b R,
+  map key_of (content_results (map (gf b) R)) = map key_of (content_results R).
+Proof.
+  intros b R. unfold content_results. induction R as [|r R IH]; [reflexivity|].
+  cbn [map filter]. rewrite is_structure_gf.
+  destruct (negb (is_structure r)); cbn [map]; rewrite ?key_of_gf, IH; reflexivity.
+Qed.
+
+Lemma content_results_incl : forall R k,
+  In k (map key_of (content_results R)) -> In k (map key_of R).
+Proof.
+  intros R k H. apply in_map_iff in H. destruct H as [r [E H]]. apply filter_In in H.
+  apply in_map_iff. exists r. tauto.
+Qed.
+
 Lemma current_failures_apply : forall b R, current_failures (map (gf b) R) = current_failures R.
 Proof.
   intros b R. unfold current_failures.
@@ -68,7 +88,7 @@ Definition okeys (ob : option baseline) : list key := match ob with Some b => ke
 Lemma stale_evaluated_resolved : forall fl R dirs disk k,
   In k (o_stale (check_step fl R dirs disk)) ->
   In k (okeys (view disk)) /\
-  In k (map key_of R ++ dirs) /\
+  In k (map key_of (content_results R) ++ dirs) /\
   (forall r, In r R -> key_of r = k -> violating r = false).
 Proof.
   intros fl R dirs disk k. unfold check_step.
@@ -76,7 +96,7 @@ Proof.
   intro H. apply handle_stale in H. destruct H as [b [E H]]. subst loaded.
   apply loaded_is_disk in HL. rewrite HL. cbn [okeys].
   rewrite apply_is_map in H. apply stale_spec in H. destruct H as [HK [HE HC]].
-  unfold evaluated_of in HE. rewrite keys_after_apply in HE.
+  unfold evaluated_of in HE. rewrite content_keys_after_apply in HE.
   rewrite current_failures_apply in HC.
   repeat split; auto.
   intros r HI K. destruct (violating r) eqn:V; auto.
@@ -209,7 +229,7 @@ Lemma strict_fails_only_for_resolved : forall fl R dirs disk,
   ((exists r, In r (o_results (check_step fl R dirs disk)) /\ is_failed r = true) \/
    (f_wae fl = true /\ exists r, In r R /\ is_warning r = true) \/
    (effective_ratchet (f_ratchet_cli fl) (f_ratchet_cfg fl) = Some RStrict /\
-    exists k, In k (okeys (view disk)) /\ In k (map key_of R ++ dirs) /\
+    exists k, In k (okeys (view disk)) /\ In k (map key_of (content_results R) ++ dirs) /\
               (forall r, In r R -> key_of r = k -> violating r = false))).
 Proof.
   intros fl R dirs disk H.
